@@ -16,6 +16,7 @@ import (
 	"encoding/pem"
 	"fmt"
 	"math/big"
+	"path/filepath"
 	"strings"
 	"time"
 )
@@ -31,6 +32,72 @@ type c09Fam struct {
 type c09In struct {
 	tag, name string
 	data      []byte
+}
+
+// ---------- explicit EC parameters: genuine, then the same file with one component changed ----------
+
+// c09ExplicitECFamily: every fixture with explicit EC domain parameters, and copies in which one octet of the
+// coefficient b, of the base point or of the order is changed (found by searching for the genuine octets of
+// P-256 / P-384): a cache of "parameters seen" keyed by less than all components would name the changed copy
+// after the genuine file. Both orders, interleaved with the other curves' files.
+func c09ExplicitECFamily(c *Ctx) c09Fam {
+	f := c09Fam{name: "ec-explicit-changed"}
+	marks := map[string][]byte{
+		"p256-b":  {0x5a, 0xc6, 0x35, 0xd8, 0xaa, 0x3a, 0x93, 0xe7},
+		"p256-gx": {0x6b, 0x17, 0xd1, 0xf2, 0xe1, 0x2c, 0x42, 0x47},
+		"p256-n":  {0xbc, 0xe6, 0xfa, 0xad, 0xa7, 0x17, 0x9e, 0x84},
+		"p384-b":  {0xb3, 0x31, 0x2f, 0xa7, 0xe2, 0x3e, 0xe7, 0xe4},
+	}
+	var genuine, changed []int
+	for _, s := range allFixtures() {
+		if !strings.Contains(s.name, "explicit") {
+			continue
+		}
+		raw := s.data
+		isPEM := bytes.HasPrefix(bytes.TrimSpace(raw), []byte("-----BEGIN"))
+		var der []byte
+		var blk *pem.Block
+		if isPEM {
+			blk, _ = pem.Decode(raw)
+			if blk == nil {
+				continue
+			}
+			der = blk.Bytes
+		} else {
+			der = raw
+		}
+		f.items = append(f.items, c09In{"ec-explicit-genuine", "g-" + filepath.Base(s.name), raw})
+		genuine = append(genuine, len(f.items)-1)
+		for tag, m := range marks {
+			at := bytes.Index(der, m)
+			if at < 0 {
+				continue
+			}
+			d := append([]byte{}, der...)
+			d[at+len(m)-1] ^= 1
+			out := d
+			if isPEM {
+				out = pem.EncodeToMemory(&pem.Block{Type: blk.Type, Bytes: d})
+			}
+			f.items = append(f.items, c09In{"ec-explicit-changed-" + tag, "c-" + tag + "-" + filepath.Base(s.name), out})
+			changed = append(changed, len(f.items)-1)
+		}
+	}
+	if len(genuine) == 0 || len(changed) == 0 {
+		return f
+	}
+	var sq []int
+	for i, ch := range changed {
+		g := genuine[i%len(genuine)]
+		sq = append(sq, g, ch, g, ch)
+	}
+	for _, ch := range changed { // the changed copies first, the genuine files after them
+		sq = append(sq, ch)
+	}
+	sq = append(sq, genuine...)
+	sq = append(sq, changed...)
+	f.seqs = append(f.seqs, sq)
+	return f
 }
 
 // ---------- DER ----------
